@@ -41,3 +41,19 @@ Theorem safe_mid_names_nodup : Safe.mid_names_nodup_stmt.
 Proof.
   intros m H. unfold m_names. rewrite safe_items_mid. apply mid_names_nodup, safe_names_ok_mid, H.
 Qed.
+
+Lemma safe_set_ok_mid m : Safe.m_names_ok m = true -> mid_set_ok m = true.
+Proof.
+  intros H. pose proof (safe_names_ok_mid m H) as Hn. unfold mid_set_ok. rewrite Hn. cbn [andb].
+  unfold Safe.m_names_ok, m_bis in H. rewrite !andb_true_iff in H. destruct H as [[[[[Hb Hsh] _] _] _] _].
+  cbn [app forallb] in Hb, Hsh. rewrite !andb_true_iff in Hb. rewrite !andb_true_iff in Hsh.
+  destruct Hb as [_ [Hnoext _]]. destruct Hsh as [_ [[Hsn _] _]].
+  unfold b_names_ok in Hnoext. rewrite !andb_true_iff in Hnoext. destruct Hnoext as [[[Hni _] _] _].
+  unfold ml_ni, ml_ei. rewrite Hni. exact Hsn.
+Qed.
+
+Theorem safe_mid_set_get_keyword : Safe.mid_set_get_keyword_stmt.
+Proof.
+  intros m v H Hl r. subst r. unfold m_names. rewrite safe_items_mid in *.
+  apply (mid_set_get_keyword m v (safe_set_ok_mid m H) Hl).
+Qed.
